@@ -15,20 +15,6 @@ theorem inv_init (c : Cfg) : Inv (init c) := by
 
 /-! ### the scans -/
 
-theorem lookup_none_of_not_stagUsed {u : AMap Pair Nat} {s : Nat} (h : stagUsed u s = false) (c : Nat) :
-    AMap.lookup u (s, c) = none := by
-  induction u with
-  | nil => rfl
-  | cons e rest ih =>
-    obtain ⟨⟨a, b⟩, v⟩ := e
-    simp only [stagUsed, List.any_cons, Bool.or_eq_false_iff] at h
-    rw [lookup_cons]
-    have h1 : ¬ a = s := by simpa using h.1
-    have : ¬ (a, b) = (s, c) := by
-      intro e; exact h1 (by simpa using congrArg Prod.fst e)
-    simp only [this, if_false]
-    exact ih h.2
-
 theorem w16_succ {c E : Nat} (h1 : c ≤ E) (h2 : E < 65535) : w16 (c + 1) = c + 1 := by
   unfold w16; omega
 
@@ -87,35 +73,21 @@ theorem scanC_no_hang {u : AMap Pair Nat} {s cE c f : Nat} (hE : cE < 65535) (hc
         exact ih (by omega) (by omega)
 
 theorem findC_found {st : State} {s c : Nat} (h : findC st s = .found c) :
-    AMap.lookup st.usage (s, c) = none ∧
-    (st.cfg.cS ≤ st.cfg.cE → st.cfg.cE < 65535 → st.cfg.cS ≤ c ∧ c ≤ st.cfg.cE) := by
-  unfold findC at h
-  by_cases hu : stagUsed st.usage s = true
-  · rw [if_pos hu] at h
-    obtain ⟨h1, h2, h3⟩ := scanC_found h
-    exact ⟨h1, fun _ hE => ⟨h3 hE, h2⟩⟩
-  · have hu' : stagUsed st.usage s = false := by simpa using hu
-    rw [if_neg hu] at h
-    have : st.cfg.cS = c := by simpa using h
-    subst this
-    exact ⟨lookup_none_of_not_stagUsed hu' _, fun hc _ => ⟨Nat.le_refl _, hc⟩⟩
+    AMap.lookup st.usage (s, c) = none ∧ c ≤ st.cfg.cE ∧ (st.cfg.cE < 65535 → st.cfg.cS ≤ c) :=
+  scanC_found h
 
 /-- findAvailableCTag fails only if every C-TAG of the range is taken under that S-TAG -/
 theorem findC_exhausted {st : State} {s : Nat} (h : findC st s = .exhausted) (hE : st.cfg.cE < 65535) :
-    ∀ c, st.cfg.cS ≤ c → c ≤ st.cfg.cE → AMap.lookup st.usage (s, c) ≠ none := by
-  unfold findC at h
-  by_cases hu : stagUsed st.usage s = true
-  · rw [if_pos hu] at h
-    exact scanC_exhausted h hE
-  · rw [if_neg hu] at h; cases h
+    ∀ c, st.cfg.cS ≤ c → c ≤ st.cfg.cE → AMap.lookup st.usage (s, c) ≠ none :=
+  scanC_exhausted h hE
 
-theorem findC_no_hang {st : State} {s : Nat} (hE : st.cfg.cE < 65535) (hle : st.cfg.cS ≤ st.cfg.cE) :
-    findC st s ≠ .hang := by
+theorem findC_no_hang {st : State} {s : Nat} (hE : st.cfg.cE < 65535) : findC st s ≠ .hang := by
   unfold findC
-  by_cases hu : stagUsed st.usage s = true
-  · rw [if_pos hu]
-    exact scanC_no_hang hE (by omega) (by omega)
-  · rw [if_neg hu]; intro h; cases h
+  by_cases hle : st.cfg.cS ≤ st.cfg.cE + 1
+  · exact scanC_no_hang hE hle (by omega)
+  · unfold scanC
+    have : st.cfg.cE < st.cfg.cS := by omega
+    simp [this]
 
 theorem scanS1_found {st : State} {s f : Nat} {p : Pair} (h : scanS1 st s f = .found p) :
     findC st p.1 = .found p.2 ∧ p.1 ≤ st.cfg.sE ∧ (st.cfg.sE < 65535 → s ≤ p.1) := by
@@ -161,7 +133,8 @@ theorem scanS2_found {st : State} {s f : Nat} {p : Pair} (h : scanS2 st s f = .f
 
 theorem findAvail_found {st : State} {p : Pair} (h : findAvail st = .found p) :
     findC st p.1 = .found p.2 ∧
-    (st.cfg.sS ≤ st.cur → st.cur ≤ st.cfg.sE → st.cfg.sE < 65535 → st.cfg.sS ≤ p.1 ∧ p.1 ≤ st.cfg.sE) := by
+    (st.cfg.sS ≤ st.cur → (st.cur ≤ st.cfg.sE ∨ st.cur = st.cfg.sS) → st.cfg.sE < 65535 →
+      st.cfg.sS ≤ p.1 ∧ p.1 ≤ st.cfg.sE) := by
   unfold findAvail at h
   cases h1 : scanS1 st st.cur 65537 with
   | found q =>
@@ -174,7 +147,7 @@ theorem findAvail_found {st : State} {p : Pair} (h : findAvail st = .found p) :
   | exhausted =>
     simp only [h1] at h
     obtain ⟨a, b, c⟩ := scanS2_found h
-    exact ⟨a, fun hc hd _ => ⟨b, by omega⟩⟩
+    exact ⟨a, fun hc hd _ => ⟨b, by rcases hd with hd | hd <;> omega⟩⟩
 
 theorem scanS1_exhausted {st : State} {s f : Nat} (h : scanS1 st s f = .exhausted) (hE : st.cfg.sE < 65535) :
     ∀ s', s ≤ s' → s' ≤ st.cfg.sE → findC st s' = .exhausted := by
@@ -393,34 +366,36 @@ theorem inRange_iff (c : Cfg) (p : Pair) :
     inRange c p = true ↔ c.sS ≤ p.1 ∧ p.1 ≤ c.sE ∧ c.cS ≤ p.2 ∧ p.2 ≤ c.cE := by
   simp [inRange, and_assoc]
 
-/-- the cursor stays inside the S-TAG range and every held pair is inside both ranges -/
-structure RInv (st : State) : Prop where
+/-- the cursor stays inside the S-TAG range (or at its start, when the range is empty) and every held pair is inside
+    both ranges unless it is one of the records `B` (the out-of-range records that loads brought in) -/
+structure RInv (B : Nat × Pair → Prop) (st : State) : Prop where
   curLo : st.cfg.sS ≤ st.cur
-  curHi : st.cur ≤ st.cfg.sE
-  cOK : st.cfg.cS ≤ st.cfg.cE
+  curHi : st.cur ≤ st.cfg.sE ∨ st.cur = st.cfg.sS
   sHi : st.cfg.sE < 65535
   cHi : st.cfg.cE < 65535
-  rng : ∀ n p, AMap.lookup st.allocs n = some p → inRange st.cfg p = true
+  rng : ∀ n p, AMap.lookup st.allocs n = some p → inRange st.cfg p = true ∨ B (n, p)
 
-/-- the stored records an operation brings in are in range (true of every operation but `load`) -/
-def opInRange (c : Cfg) : Op → Prop
-  | .load l => ∀ e ∈ l, inRange c e.2 = true
+/-- every out-of-range stored record an operation brings in belongs to `B` (true of every operation but `load`) -/
+def opBadIn (B : Nat × Pair → Prop) (c : Cfg) : Op → Prop
+  | .load l => ∀ e ∈ l, inRange c e.2 = false → B e
   | _ => True
 
-theorem rinv_record {st : State} (hR : RInv st) (n : Nat) {p : Pair} (hp : inRange st.cfg p = true) :
-    RInv (record st n p) := by
-  refine ⟨hR.curLo, hR.curHi, hR.cOK, hR.sHi, hR.cHi, ?_⟩
+section
+variable {B : Nat × Pair → Prop}
+
+theorem rinv_record {st : State} (hR : RInv B st) (n : Nat) {p : Pair}
+    (hp : inRange st.cfg p = true ∨ B (n, p)) : RInv B (record st n p) := by
+  refine ⟨hR.curLo, hR.curHi, hR.sHi, hR.cHi, ?_⟩
   intro n' q h
   simp only [record, lookup_insert] at h
   by_cases e : n' = n
-  · simp only [e, if_true, Option.some.injEq] at h; subst h; exact hp
+  · simp only [e, if_true, Option.some.injEq] at h; subst h; subst e; exact hp
   · simp only [e, if_false] at h; exact hR.rng n' q h
 
-theorem rinv_releaseU {st : State} (hR : RInv st) (n : Nat) : RInv (releaseU st n) := by
-  refine ⟨?_, ?_, ?_, ?_, ?_, ?_⟩
+theorem rinv_releaseU {st : State} (hR : RInv B st) (n : Nat) : RInv B (releaseU st n) := by
+  refine ⟨?_, ?_, ?_, ?_, ?_⟩
   · rw [releaseU_cfg, releaseU_cur]; exact hR.curLo
   · rw [releaseU_cfg, releaseU_cur]; exact hR.curHi
-  · rw [releaseU_cfg]; exact hR.cOK
   · rw [releaseU_cfg]; exact hR.sHi
   · rw [releaseU_cfg]; exact hR.cHi
   · intro n' q h
@@ -430,7 +405,15 @@ theorem rinv_releaseU {st : State} (hR : RInv st) (n : Nat) : RInv (releaseU st 
     · simp [e] at h
     · simp only [e, if_false] at h; exact hR.rng n' q h
 
-theorem rinv_alloc {st : State} (hR : RInv st) (n : Nat) : RInv (alloc st n).1 := by
+/-- a pair found by findAvailable is inside both ranges -/
+theorem findAvail_inRange {st : State} (hR : RInv B st) {p : Pair} (hf : findAvail st = .found p) :
+    inRange st.cfg p = true := by
+  obtain ⟨h1, h2⟩ := findAvail_found hf
+  obtain ⟨hs1, hs2⟩ := h2 hR.curLo hR.curHi hR.sHi
+  obtain ⟨_, hc2, hc1⟩ := findC_found h1
+  exact (inRange_iff _ _).mpr ⟨hs1, hs2, hc1 hR.cHi, hc2⟩
+
+theorem rinv_alloc {st : State} (hR : RInv B st) (n : Nat) : RInv B (alloc st n).1 := by
   unfold alloc
   cases h : AMap.lookup st.allocs n with
   | some p => exact hR
@@ -441,13 +424,12 @@ theorem rinv_alloc {st : State} (hR : RInv st) (n : Nat) : RInv (alloc st n).1 :
     | hang => exact hR
     | found p =>
       simp only
-      obtain ⟨h1, h2⟩ := findAvail_found hf
-      obtain ⟨hs1, hs2⟩ := h2 hR.curLo hR.curHi hR.sHi
-      obtain ⟨hc1, hc2⟩ := (findC_found h1).2 hR.cOK hR.cHi
-      have hcur : RInv { st with cur := p.1 } := ⟨hs1, hs2, hR.cOK, hR.sHi, hR.cHi, hR.rng⟩
-      exact rinv_record hcur n ((inRange_iff _ _).mpr ⟨hs1, hs2, hc1, hc2⟩)
+      have hin := findAvail_inRange hR hf
+      have hs := (inRange_iff _ _).mp hin
+      have hcur : RInv B { st with cur := p.1 } := ⟨hs.1, Or.inl hs.2.1, hR.sHi, hR.cHi, hR.rng⟩
+      exact rinv_record hcur n (Or.inl hin)
 
-theorem rinv_allocWS {st : State} (hR : RInv st) (n t : Nat) : RInv (allocWS st n t).1 := by
+theorem rinv_allocWS {st : State} (hR : RInv B st) (n t : Nat) : RInv B (allocWS st n t).1 := by
   unfold allocWS
   split
   · exact hR
@@ -461,10 +443,10 @@ theorem rinv_allocWS {st : State} (hR : RInv st) (n t : Nat) : RInv (allocWS st 
       | hang => exact hR
       | found c =>
         simp only
-        obtain ⟨hc1, hc2⟩ := (findC_found hf).2 hR.cOK hR.cHi
+        obtain ⟨_, hc2, hc1⟩ := findC_found hf
         apply rinv_record (rinv_releaseU hR n)
         rw [releaseU_cfg]
-        exact (inRange_iff _ _).mpr ⟨by omega, by omega, hc1, hc2⟩
+        exact Or.inl ((inRange_iff _ _).mpr ⟨by omega, by omega, hc1 hR.cHi, hc2⟩)
 
 theorem loadOne_cfg (acc : State × Bool) (e : Nat × Pair) : (loadOne acc e).1.cfg = acc.1.cfg := by
   unfold loadOne
@@ -477,10 +459,14 @@ theorem loadOne_cfg (acc : State × Bool) (e : Nat × Pair) : (loadOne acc e).1.
       · simp [record, releaseU_cfg]
     · simp [record, releaseU_cfg]
 
-theorem rinv_loadOne {acc : State × Bool} (hR : RInv acc.1) (e : Nat × Pair)
-    (he : inRange acc.1.cfg e.2 = true) : RInv (loadOne acc e).1 := by
-  have hrec : RInv (record (releaseU acc.1 e.1) e.1 e.2) :=
-    rinv_record (rinv_releaseU hR e.1) e.1 (by rw [releaseU_cfg]; exact he)
+theorem rinv_loadOne {acc : State × Bool} (hR : RInv B acc.1) (e : Nat × Pair)
+    (he : inRange acc.1.cfg e.2 = false → B e) : RInv B (loadOne acc e).1 := by
+  have hrec : RInv B (record (releaseU acc.1 e.1) e.1 e.2) := by
+    apply rinv_record (rinv_releaseU hR e.1) e.1
+    rw [releaseU_cfg]
+    cases hr : inRange acc.1.cfg e.2 with
+    | true => exact Or.inl rfl
+    | false => exact Or.inr (he hr)
   unfold loadOne
   simp only
   split
@@ -491,8 +477,8 @@ theorem rinv_loadOne {acc : State × Bool} (hR : RInv acc.1) (e : Nat × Pair)
       · exact hrec
     · exact hrec
 
-theorem rinv_loadFold {acc : State × Bool} (hR : RInv acc.1) (l : List (Nat × Pair))
-    (hl : ∀ e ∈ l, inRange acc.1.cfg e.2 = true) : RInv (l.foldl loadOne acc).1 := by
+theorem rinv_loadFold {acc : State × Bool} (hR : RInv B acc.1) (l : List (Nat × Pair))
+    (hl : ∀ e ∈ l, inRange acc.1.cfg e.2 = false → B e) : RInv B (l.foldl loadOne acc).1 := by
   induction l generalizing acc with
   | nil => exact hR
   | cons e rest ih =>
@@ -501,7 +487,7 @@ theorem rinv_loadFold {acc : State × Bool} (hR : RInv acc.1) (l : List (Nat × 
     rw [loadOne_cfg]
     exact hl e' (List.mem_cons_of_mem _ he')
 
-theorem rinv_step {st : State} (hR : RInv st) (op : Op) (ho : opInRange st.cfg op) : RInv (step st op).1 := by
+theorem rinv_step {st : State} (hR : RInv B st) (op : Op) (ho : opBadIn B st.cfg op) : RInv B (step st op).1 := by
   cases op with
   | alloc n => exact rinv_alloc hR n
   | allocWS n t => exact rinv_allocWS hR n t
@@ -510,6 +496,8 @@ theorem rinv_step {st : State} (hR : RInv st) (op : Op) (ho : opInRange st.cfg o
   | load l => exact rinv_loadFold (acc := (st, false)) hR l ho
   | stats => exact hR
   | dump => exact hR
+
+end
 
 theorem step_cfg (st : State) (op : Op) : (step st op).1.cfg = st.cfg := by
   cases op with
@@ -547,15 +535,47 @@ theorem run_cfg (st : State) (ops : List Op) : (run st ops).cfg = st.cfg := by
     show (run (step st op).1 rest).cfg = st.cfg
     rw [ih, step_cfg]
 
-theorem rinv_run {st : State} (hR : RInv st) (ops : List Op) (ho : ∀ op ∈ ops, opInRange st.cfg op) :
-    RInv (run st ops) := by
+theorem rinv_run {B : Nat × Pair → Prop} {st : State} (hR : RInv B st) (ops : List Op)
+    (ho : ∀ op ∈ ops, opBadIn B st.cfg op) : RInv B (run st ops) := by
   induction ops generalizing st with
   | nil => exact hR
   | cons op rest ih =>
-    show RInv (run (step st op).1 rest)
+    show RInv B (run (step st op).1 rest)
     apply ih (rinv_step hR op (ho op (List.mem_cons_self ..)))
     intro op' h'
     rw [step_cfg]
     exact ho op' (List.mem_cons_of_mem _ h')
+
+/-- the out-of-range stored records that the loads of a history name -/
+def badLoads (c : Cfg) : List Op → List (Nat × Pair)
+  | [] => []
+  | .load l :: rest => l.filter (fun e => !inRange c e.2) ++ badLoads c rest
+  | _ :: rest => badLoads c rest
+
+theorem opBadIn_badLoads (c : Cfg) (ops : List Op) : ∀ op ∈ ops, opBadIn (· ∈ badLoads c ops) c op := by
+  induction ops with
+  | nil => intro op h; cases h
+  | cons o rest ih =>
+    intro op h
+    have mono : ∀ op', opBadIn (· ∈ badLoads c rest) c op' → opBadIn (· ∈ badLoads c (o :: rest)) c op' := by
+      intro op' h'
+      cases op' with
+      | load l =>
+        intro e he hr
+        have := h' e he hr
+        cases o <;> simp [badLoads, this]
+      | _ => trivial
+    rcases List.mem_cons.mp h with h | h
+    · subst h
+      cases op with
+      | load l =>
+        intro e he hr
+        simp [badLoads, he, hr]
+      | _ => trivial
+    · exact mono op (ih op h)
+
+/-- the range invariant holds initially for any `B` when both ranges end below 65535 -/
+theorem rinv_init (B : Nat × Pair → Prop) (c : Cfg) (hs : c.sE < 65535) (hc : c.cE < 65535) : RInv B (init c) :=
+  ⟨Nat.le_refl _, Or.inr rfl, hs, hc, by intro n p h; simp [init] at h⟩
 
 end Bng.Vlan
